@@ -59,6 +59,12 @@
 // evaluated before and after it and only newly appearing violations are
 // reported, with the class of that event in the finding key.
 //
+// Keep-alive heartbeats (drivers implementing Heartbeats; units xproto-keepalive*): three more
+// events (hb, hback, hbto) and a heartbeat object in the model that is neither a lease nor a
+// request stream - see the comment of the Heartbeats interface for the model. The oracle is
+// unchanged; finding keys about a connection are qualified with the heartbeats registered on it.
+// Everything about heartbeats is inert for drivers that do not implement the interface.
+//
 // Not compared (statement silent): which of several idle connections is leased;
 // what Shutdown does to idle connections (I2/I4 are not applied after Shutdown);
 // stats other than the two "active" gauges.
@@ -214,6 +220,102 @@ type ExtraEvents interface {
 	ApplyExtra(pool types.ConnectionPool, ev string) (outcome string)
 }
 
+// Heartbeats is implemented by a driver whose codec has keep-alive heartbeats (the xprotocol pools
+// install an xprotocolKeepAlive per connection when the codec's Trigger returns a frame). It adds
+// three events to the alphabet:
+//
+//	hb:c     the idle read timeout of connection c fired (api.OnReadTimeout is delivered to the
+//	         connection's listeners, as pkg/network's read loop does when a read times out - also
+//	         while a request is waiting for its answer); the keep-alive answers by sending a
+//	         heartbeat request on c. The heartbeat's own timer is disarmed at once (DisarmTimeout):
+//	         time is virtual, a heartbeat times out only through the event hbto.
+//	hback:h  the peer's answer to heartbeat h is read (also a LATE answer, after h timed out)
+//	hbto:h   heartbeat h timed out: the keep-alive's timeout callback runs (FireTimeout)
+//
+// Reference model: a heartbeat is a stream on its connection that is NOT a lease: it does not make
+// the connection leased (I1, I3), it is no request stream (I5: upstream_request_active and the
+// Requests resource count request streams only - the keep-alive creates its streams directly on the
+// codec client, poolX.NewStream's Inc is not run for them), and it does not keep a connection alive
+// that was told to close (I2: a tainted connection is closed once its last REQUEST stream is gone,
+// whether or not heartbeats are unanswered or timed out on it). The keep-alive itself may close a
+// connection exactly when FailCountToClose consecutive heartbeats timed out on it (keepalive_configure.go:
+// "if hb fails in a line, and count = fail_count_to_close, close this connection"): then the
+// model ends the streams on it like after any close; whether it does close is not compared
+// (statement silent). Any other close during a heartbeat event is not an event of the model: the
+// request streams on that connection stay in flight in the model and the oracle reports their
+// destruction.
+//
+// Bound: at most one unanswered heartbeat per connection at a time (the default heartbeat timeout,
+// 1 s, is far below the read timeout, 15 s, that triggers the next one) and at most MaxStale
+// timed-out ones still registered.
+type Heartbeats interface {
+	// HeartbeatID tells whether b - the bytes written on a connection during an hb event - is one
+	// heartbeat request, and returns its id.
+	HeartbeatID(b []byte) (uint64, bool)
+	// HeartbeatAck builds the peer's answer to the heartbeat request hb.
+	HeartbeatAck(hb []byte) ([]byte, error)
+	// Watch registers an observer with the keep-alive of connection fc (types.KeepAlive.AddCallback):
+	// it is told of every heartbeat the keep-alive counted as timed out (true) or answered (false).
+	// This is how the model learns of a timeout also when the scheduler of the E1 part lets the
+	// heartbeat's virtual timer fire before the harness disarmed it.
+	Watch(fc *vfake.Conn, cb func(timeout bool)) error
+	// DisarmTimeout stops the timer of heartbeat id if the keep-alive still waits for it.
+	DisarmTimeout(fc *vfake.Conn, id uint64) error
+	// FireTimeout runs what the heartbeat's timer runs when it fires.
+	FireTimeout(fc *vfake.Conn, id uint64) error
+	// KeepAliveState is the keep-alive's own memory for connection fc (fail count, previous result,
+	// tick count, stopped, requests awaiting an answer, streams registered on the stream
+	// connection): it goes into the canonical state.
+	KeepAliveState(fc *vfake.Conn) string
+	FailCountToClose() int
+	MaxStale() int
+}
+
+const (
+	hbOut   = "unanswered"
+	hbStale = "timed-out"
+	hbDone  = "done"
+)
+
+// hbT is one heartbeat of the model.
+type hbT struct {
+	ord   int
+	c     *connT
+	id    uint64
+	wire  []byte
+	state string
+}
+
+func (w *world) hb() Heartbeats {
+	h, _ := w.d.(Heartbeats)
+	return h
+}
+
+// hbsOn returns the heartbeats registered on an OPEN connection in the given state.
+func (w *world) hbsOn(c *connT, state string) []*hbT {
+	var out []*hbT
+	if !c.open() {
+		return nil
+	}
+	for _, h := range w.hbs {
+		if h.c == c && h.state == state {
+			out = append(out, h)
+		}
+	}
+	return out
+}
+
+// hbq qualifies a finding key about connection c with the heartbeats registered on it ("" without).
+func (w *world) hbq(c *connT) string {
+	switch {
+	case len(w.hbsOn(c, hbOut)) > 0:
+		return " [heartbeat unanswered on the connection]"
+	case len(w.hbsOn(c, hbStale)) > 0:
+		return " [timed-out heartbeat still registered on the connection]"
+	}
+	return ""
+}
+
 func (w *world) model() ModelOptions {
 	if m, ok := w.d.(Modeled); ok {
 		return m.Model()
@@ -258,6 +360,18 @@ type connT struct {
 	goAwayDelivered bool
 	// replaced (ModelOptions.DrainingNotActive): a successor was created after this connection announced go-away
 	replaced bool
+	// (Heartbeats) kaFails: consecutive heartbeat timeouts the keep-alive counted on this connection
+	// (reset by an answer in time), as reported to the observer registered with Watch; earlyTO:
+	// timeouts reported before the harness had registered the heartbeat (E1 part: the virtual timer
+	// fired while the heartbeat was still being sent); kaClosed: the keep-alive closed the
+	// connection at the FailCountToClose-th consecutive timeout, as the model allows
+	// kaMayClose: an unanswered heartbeat's timeout would be the FailCountToClose-th (schedule part: a
+	// lease that finds the connection closed under it lost a race against the keep-alive, not against the pool)
+	kaFails    int
+	earlyTO    int
+	kaClosed   bool
+	kaMayClose bool
+	watched    bool
 }
 
 // open is read from the fake connection itself (a connection may be registered by the model while
@@ -336,6 +450,8 @@ type world struct {
 	herr           string
 	lease          []finding // lease-time violations of the last event
 	attempts       int       // connections the pool created during the last event
+	hbs            []*hbT    // (Heartbeats) the heartbeats sent so far
+	noSweep        bool      // (Heartbeats) a connection closed during a heartbeat event without the model's leave: its streams stay in flight in the model
 }
 
 const waitTimeout = 20 * time.Second
@@ -372,6 +488,11 @@ func newWorld(d Driver, cfg Cfg) *world {
 	cc := v2.Cluster{Name: "c09cluster", ClusterType: v2.SIMPLE_CLUSTER, LbType: v2.LB_ROUNDROBIN}
 	// thresholds are always stated, also when both are 0 (= unlimited)
 	cc.CirBreThresholds = v2.CircuitBreakers{Thresholds: []v2.Thresholds{{MaxConnections: cfg.MaxConn, MaxRequests: cfg.MaxReq}}}
+	if _, ok := d.(Heartbeats); ok {
+		// heartbeats time out through the event hbto only: their own timer (stopped as soon as it was
+		// armed) must not fire on the wall clock, however long the process is stalled
+		cc.KeepAlive.Timeout = 24 * time.Hour
+	}
 	info := cluster.NewClusterInfo(cc)
 	w.host = cluster.NewSimpleHost(v2.Host{HostConfig: v2.HostConfig{Address: "127.0.0.1:21909", Weight: 1}}, info)
 	w.rm = info.ResourceManager()
@@ -620,6 +741,95 @@ func (w *world) apply(ev string) (outcome string) {
 			w.endStreamsOn(c, "go-away-close")
 		}
 		return "announced"
+	case "hb":
+		c := getC()
+		hd := w.hb()
+		if c == nil || hd == nil {
+			w.harness("event %q needs a driver with heartbeats and an open connection", ev)
+			return "bad"
+		}
+		if !c.watched {
+			c.watched = true
+			if err := hd.Watch(c.fc, func(timeout bool) { w.onKeepAlive(c, timeout) }); err != nil {
+				c.watched = false // no keep-alive on this connection
+			}
+		}
+		before := len(c.fc.Writes)
+		if c.watched && c.kaFails+1 >= hd.FailCountToClose() {
+			c.kaMayClose = true
+		}
+		c.fc.OnConnectionEvent(api.OnReadTimeout)
+		var wr []byte
+		for _, x := range c.fc.Writes[before:] {
+			wr = append(wr, x...)
+		}
+		if len(wr) == 0 {
+			out := "not-sent" // no keep-alive on the connection, or it was stopped (Shutdown)
+			if c.earlyTO > 0 {
+				c.earlyTO-- // (E1 part) the timer fired and the keep-alive closed the connection before the heartbeat was written
+				out = "timed-out-before-sent"
+			}
+			w.afterHeartbeatEvent(c)
+			return out
+		}
+		id, ok := hd.HeartbeatID(wr)
+		if !ok {
+			w.harness("event %q: the bytes written on connection %d are not one heartbeat request: %x", ev, c.idx, wr)
+			return "bad"
+		}
+		h := &hbT{ord: len(w.hbs), c: c, id: id, wire: wr, state: hbOut}
+		w.hbs = append(w.hbs, h)
+		out := "sent"
+		if c.earlyTO > 0 {
+			c.earlyTO--
+			h.state = hbStale
+			out = "sent-and-timed-out"
+		} else if err := hd.DisarmTimeout(c.fc, id); err != nil {
+			w.harness("event %q: %v", ev, err)
+			return "bad"
+		}
+		w.afterHeartbeatEvent(c)
+		return out
+	case "hback", "hbto":
+		hd := w.hb()
+		if hd == nil || arg < 0 || arg >= len(w.hbs) || !w.hbs[arg].c.open() || w.hbs[arg].state == hbDone || (name == "hbto" && w.hbs[arg].state != hbOut) {
+			w.harness("event %q: no such heartbeat", ev)
+			return "bad"
+		}
+		h := w.hbs[arg]
+		c := h.c
+		if name == "hback" {
+			b, err := hd.HeartbeatAck(h.wire)
+			if err != nil {
+				w.harness("event %q: cannot build the answer to heartbeat bytes %x: %v", ev, h.wire, err)
+				return "bad"
+			}
+			out := "late-answer"
+			if h.state == hbOut {
+				out = "answered"
+			}
+			h.state = hbDone
+			if !w.inject(c, b) {
+				return "bad"
+			}
+			w.afterHeartbeatEvent(c)
+			return out
+		}
+		if err := hd.FireTimeout(c.fc, h.id); err != nil {
+			w.harness("event %q: %v", ev, err)
+			return "bad"
+		}
+		out := "timed-out"
+		if h.state == hbOut {
+			// the keep-alive did not count it (it was stopped by Shutdown): the timer is spent all the same
+			h.state = hbStale
+			out = "timed-out-unheeded"
+		}
+		w.afterHeartbeatEvent(c)
+		if c.kaClosed {
+			out = "timed-out-and-closed"
+		}
+		return out
 	case "shutdown":
 		w.shutdown = true
 		w.pool.Shutdown()
@@ -706,7 +916,7 @@ func (w *world) step(ev string) string {
 		w.harness("after %q: %v", ev, err)
 	}
 	w.syncConns()
-	if w.model().Binding && w.herr == "" {
+	if w.model().Binding && w.herr == "" && !w.noSweep {
 		// model (c)/(d): connections closed together with their downstream connection end their streams
 		w.sweepClosed("closed-with-the-downstream-connection")
 	}
@@ -837,6 +1047,43 @@ func (w *world) sweepClosed(cause string) {
 	}
 }
 
+// onKeepAlive is the observer of connection c's keep-alive (Heartbeats.Watch): it runs inside the
+// keep-alive's HandleTimeout / HandleSuccess, on whatever thread runs those.
+func (w *world) onKeepAlive(c *connT, timeout bool) {
+	if !timeout {
+		c.kaFails, c.kaMayClose = 0, false
+		return
+	}
+	c.kaFails++
+	marked := false
+	for _, h := range w.hbs {
+		if h.c == c && h.state == hbOut {
+			h.state, marked = hbStale, true
+			break
+		}
+	}
+	if !marked {
+		c.earlyTO++
+	}
+	if hd := w.hb(); !c.open() && hd != nil && c.kaFails >= hd.FailCountToClose() {
+		// the keep-alive closed the connection at the FailCountToClose-th consecutive timeout: the
+		// streams on it end as after any close
+		c.kaClosed = true
+		c.envClosed = true // (schedule part) not the pool's own decision: the keep-alive acts on the peer's silence
+		w.endStreamsOn(c, "keepalive-close")
+	}
+}
+
+// afterHeartbeatEvent is called at the end of a heartbeat event on connection c. A close of c during
+// the event that the model does not allow (onKeepAlive) is no event of the model: the request
+// streams on c stay in flight (the oracle then reports their destruction) and the binding model's
+// sweep is skipped.
+func (w *world) afterHeartbeatEvent(c *connT) {
+	if !c.open() && !c.kaClosed {
+		w.noSweep = true
+	}
+}
+
 func (s *strmT) reqBytes() []byte { return s.req }
 
 func (w *world) newStream(variant string) string {
@@ -944,7 +1191,7 @@ func (w *world) newStream(variant string) string {
 	}
 	if on.tainted() && !w.shutdown {
 		for _, t := range on.taints {
-			w.lease = append(w.lease, finding{"pool=" + pn + " I2 connection leased again after " + t,
+			w.lease = append(w.lease, finding{"pool=" + pn + " I2 connection leased again after " + t + w.hbq(on),
 				fmt.Sprintf("NewStream put stream %d on connection %d, on which a %s happened earlier: the connection had to be closed, not reused", s.ord, on.idx, t)})
 		}
 	}
@@ -988,6 +1235,24 @@ func (w *world) enabled() []string {
 			out = append(out, fmt.Sprintf("goaway:%d", c.idx))
 		}
 	}
+	if hd := w.hb(); hd != nil {
+		for _, c := range w.conns {
+			if c.open() && len(w.hbsOn(c, hbOut)) == 0 && len(w.hbsOn(c, hbStale)) < hd.MaxStale() {
+				out = append(out, fmt.Sprintf("hb:%d", c.idx))
+			}
+		}
+		for _, h := range w.hbs {
+			if !h.c.open() {
+				continue
+			}
+			switch h.state {
+			case hbOut:
+				out = append(out, fmt.Sprintf("hback:%d", h.ord), fmt.Sprintf("hbto:%d", h.ord))
+			case hbStale:
+				out = append(out, fmt.Sprintf("hback:%d", h.ord))
+			}
+		}
+	}
 	out = append(out, "shutdown", "close")
 	if w.cfg.MaxReq > 0 {
 		if w.ext == 0 {
@@ -1028,6 +1293,10 @@ type sv struct{ key, detail string }
 func (w *world) check() map[string]sv {
 	out := map[string]sv{}
 	add := func(obj, key, detail string) { out[key+"#"+obj] = sv{key, detail} }
+	// addq: qual (the heartbeats registered on the connection) is part of the finding key but not of
+	// the identity of a standing violation, so that a violation is attributed to the event that
+	// caused it and not again to a later heartbeat event that only changes the qualifier
+	addq := func(obj, key, qual, detail string) { out[key+"#"+obj] = sv{key + qual, detail} }
 	b := w.d.Books(w.pool)
 	pn := "pool=" + w.d.Name()
 	nOpen := 0
@@ -1093,8 +1362,8 @@ func (w *world) check() map[string]sv {
 			}
 			if c.tainted() && nin == 0 && !w.shutdown {
 				for _, t := range c.taints {
-					add(obj+t, pn+" I2 connection still open after "+t+" although its stream is gone",
-						fmt.Sprintf("connection %d saw a %s, carries no stream any more and is still open (idle-listed %d times)", c.idx, t, idleCount[c.fc]))
+					addq(obj+t, pn+" I2 connection still open after "+t+" although its stream is gone", w.hbq(c),
+						fmt.Sprintf("connection %d saw a %s, carries no stream any more and is still open (idle-listed %d times)%s", c.idx, t, idleCount[c.fc], w.hbNote(c)))
 				}
 			}
 		}
@@ -1128,14 +1397,14 @@ func (w *world) check() map[string]sv {
 			goaway := c.tainted()
 			if goaway && nin == 0 {
 				if !w.shutdown {
-					add(obj, pn+" I2 go-away connection still open although its streams are gone",
-						fmt.Sprintf("connection %d announced go-away, carries no stream and is still open (slot state %q)", c.idx, ref[c.fc]))
+					addq(obj, pn+" I2 go-away connection still open although its streams are gone", w.hbq(c),
+						fmt.Sprintf("connection %d announced go-away, carries no stream and is still open (slot state %q)%s", c.idx, ref[c.fc], w.hbNote(c)))
 				}
 				continue // (not also reported as an I3 leak)
 			}
 			if _, ok := ref[c.fc]; !ok && nin == 0 {
-				add(obj, pn+" I3 open connection neither referenced by a slot nor draining (leaked)",
-					fmt.Sprintf("connection %d is open, carries no stream and no slot of the pool refers to it", c.idx))
+				addq(obj, pn+" I3 open connection neither referenced by a slot nor draining (leaked)", w.hbq(c),
+					fmt.Sprintf("connection %d is open, carries no stream and no slot of the pool refers to it%s", c.idx, w.hbNote(c)))
 			}
 			if _, ok := ref[c.fc]; !ok && nin > 0 && !goaway && !(mo.Binding && w.shutdown) {
 				// (binding model: Shutdown tells every client to go away; they leave the pool and drain)
@@ -1185,6 +1454,15 @@ func (w *world) check() map[string]sv {
 		}
 	}
 	return out
+}
+
+// hbNote describes the heartbeats registered on c for a finding's detail ("" without).
+func (w *world) hbNote(c *connT) string {
+	o, st := len(w.hbsOn(c, hbOut)), len(w.hbsOn(c, hbStale))
+	if o+st == 0 {
+		return ""
+	}
+	return fmt.Sprintf("; %d unanswered and %d timed-out heartbeat(s) are registered on it, %d consecutive heartbeat timeouts", o, st, c.kaFails)
 }
 
 func drainingNote(n int) string {
@@ -1245,6 +1523,16 @@ func (w *world) canon() string {
 		fmt.Fprintf(&sb, "c%d{%s s=%v idle=%v slot=%v taint=%v nr=%v}", n, st, ss, idlePos[c.fc], slotOf[c.fc], c.taints, c.noRead)
 		if c.replaced && w.model().DrainingNotActive {
 			sb.WriteString("R")
+		}
+		if hd := w.hb(); hd != nil && c.open() {
+			// the keep-alive's memory (read from the real object) and the model's: heartbeats are renamed in creation order per connection
+			var hs []string
+			for _, h := range w.hbs {
+				if h.c == c && h.state != hbDone {
+					hs = append(hs, h.state[:1])
+				}
+			}
+			fmt.Fprintf(&sb, "hb{%v kf=%d %s}", hs, c.kaFails, hd.KeepAliveState(c.fc))
 		}
 		n++
 	}
@@ -1554,9 +1842,17 @@ search:
 	}
 	b, _ := json.Marshal(cfgs)
 	p.End(complete,
-		fmt.Sprintf("pool %s: every history of <= %d events from {NewStream (connect ok / fails / times out), reply(s), local reset(s), remote close(c), local close(c), go-away, %spool Shutdown, pool Close, request slot taken/released by another pool of the cluster} under thresholds %s, successors expanded from every distinct canonical state", d.Name(), depth,
-			map[bool]string{true: "garbage response(s), ", false: ""}[d.GarbageBytes() != nil], b),
+		fmt.Sprintf("pool %s: every history of <= %d events from {NewStream (connect ok / fails / times out), reply(s), local reset(s), remote close(c), local close(c), go-away, %s%spool Shutdown, pool Close, request slot taken/released by another pool of the cluster} under thresholds %s, successors expanded from every distinct canonical state", d.Name(), depth,
+			map[bool]string{true: "garbage response(s), ", false: ""}[d.GarbageBytes() != nil], hbAlphabet(d), b),
 		"BFS; a state is an event history replayed on a fresh pool/host/cluster info/resource manager over fake connections; merged on the canonical form (per connection in creation order: open, in-flight streams, idle-list position and client flags, slot, taints; pool counters; Requests.Cur; active-stat deltas; model memory); distinct = distinct (cfg, canonical state); outcome = class of the last event; oracle I1-I5 evaluated in every state, new violations attributed to the last event; I4 probed from every new state without leases; not compared (statement silent): which idle connection is picked, behaviour after Shutdown (I2, I4), other stats")
+}
+
+func hbAlphabet(d Driver) string {
+	hd, ok := d.(Heartbeats)
+	if !ok {
+		return ""
+	}
+	return fmt.Sprintf("idle read timeout(c) = heartbeat sent on c (<= 1 unanswered and <= %d timed-out heartbeats registered per connection), heartbeat answer(h) (in time or late), heartbeat timeout(h) (the keep-alive closes the connection at %d consecutive timeouts), ", hd.MaxStale(), hd.FailCountToClose())
 }
 
 // variableGet reads the upstream connection id the pool recorded in the request context.
